@@ -138,7 +138,7 @@ func run(t *testing.T, tape *simrt.Tape) *hx.Outcome {
 			return nil
 		}
 		hosts := common.Hosts(reg, 20*time.Second, nil, false)
-		fcfg := config.Config{HTTPCacheType: "memory", FSCacheType: "memory", NoPrometheus: true, NoBackgroundFetch: s.Tape.Draw("cfg", 2) == 0, NoPrefetch: s.Tape.Draw("cfg", 2) == 0,
+		fcfg := config.Config{HTTPCacheType: "memory", FSCacheType: "memory", NoPrometheus: true, NoBackgroundFetch: s.Tape.Draw("cfg", 2) == 0, NoPrefetch: s.Tape.Draw("cfg", 2) == 0, ResolveResultEntryTTLSec: []int{0, 5}[s.Tape.Draw("cfg", 2)],
 			BlobConfig: config.BlobConfig{ChunkSize: 50000, FetchTimeoutSec: 20, MaxRetries: 1, MinWaitMSec: 10, MaxWaitMSec: 100, ValidInterval: 600}}
 		lm, err := store.NewLayerManager(context.Background(), filepath.Join(root, "store"), hosts, memorymetadata.NewReader, fcfg)
 		if err != nil {
@@ -185,7 +185,21 @@ func run(t *testing.T, tape *simrt.Tape) *hx.Outcome {
 			}
 			return in.Operations(), 0
 		}
-		checkDiff := func(n fusefs.InodeEmbedder, ii, li int) bool {
+		// a release that brings an image's use count to zero drops its layers: a diff node that a client
+		// looked up WITHOUT holding a use may stop working at that moment (the property promises the
+		// lookup, and protects layers with outstanding uses only)
+		overlapped := func(t *simrt.Task, ii, li int) bool {
+			if count[[2]int{ii, li}] > 0 {
+				return false
+			}
+			for _, r := range relZero {
+				if r.img == ii && r.seq > lookupInv[t.Label] {
+					return true
+				}
+			}
+			return false
+		}
+		checkDiff := func(t *simrt.Task, n fusefs.InodeEmbedder, ii, li int) bool {
 			// the diff directory is the layer's root: read one file through it
 			fs := images[ii].files[li]
 			var names []string
@@ -202,6 +216,9 @@ func run(t *testing.T, tape *simrt.Tape) *hx.Outcome {
 			for _, comp := range strings.Split(p, "/") {
 				in, errno := cur.(fusefs.NodeLookuper).Lookup(ctx, comp, &eo)
 				if errno != 0 {
+					if overlapped(t, ii, li) {
+						return true
+					}
 					s.Fail("diff-lookup-failed", "img%d layer%d: Lookup(%q) inside the diff directory failed: %v", ii, li, p, errno)
 					return false
 				}
@@ -209,7 +226,7 @@ func run(t *testing.T, tape *simrt.Tape) *hx.Outcome {
 			}
 			fh, _, errno := cur.(fusefs.NodeOpener).Open(ctx, 0)
 			if errno != 0 {
-				if calm {
+				if calm && !overlapped(t, ii, li) {
 					s.Fail("diff-read-failed", "img%d layer%d: Open(%q) failed: %v", ii, li, p, errno)
 					return false
 				}
@@ -217,7 +234,7 @@ func run(t *testing.T, tape *simrt.Tape) *hx.Outcome {
 			}
 			rr, errno := fh.(fusefs.FileReader).Read(ctx, make([]byte, len(fs[p])+1), 0)
 			if errno != 0 {
-				if calm {
+				if calm && !overlapped(t, ii, li) {
 					s.Fail("diff-read-failed", "img%d layer%d: Read(%q) failed: %v", ii, li, p, errno)
 					return false
 				}
@@ -241,7 +258,11 @@ func run(t *testing.T, tape *simrt.Tape) *hx.Outcome {
 					ii := dr(len(images))
 					li := dr(len(images[ii].layers))
 					key := [2]int{ii, li}
-					switch op := dr(8); {
+					switch op := dr(9); {
+					case op == 8: // idle: lets the resolver's cache entries (TTL) and other timers expire
+						d := []time.Duration{time.Second, 10 * time.Second, 200 * time.Second}[dr(3)]
+						s.Event("%s idle %v", t.Label, d)
+						t.Sleep(d)
 					case op < 3: // lookup diff|blob|info
 						kind := []string{"diff", "blob", "info"}[dr(3)]
 						n, errno := lookup(t, ii, li, kind)
@@ -259,7 +280,7 @@ func run(t *testing.T, tape *simrt.Tape) *hx.Outcome {
 							}
 							continue
 						}
-						if kind == "diff" && !checkDiff(n, ii, li) {
+						if kind == "diff" && !checkDiff(t, n, ii, li) {
 							return
 						}
 					case op == 3: // a digest no layer of the image has
@@ -354,7 +375,7 @@ func run(t *testing.T, tape *simrt.Tape) *hx.Outcome {
 					s.Fail("lookup-after-release-failed", "after every use was released (faults off), looking up diff of (img%d, layer %d) failed with %v: the image is not resolved again [registry faults were injected while this image was being resolved earlier: %v]", ii, li, errno, faultedImage[ii])
 					return
 				}
-				if !checkDiff(n, ii, li) {
+				if !checkDiff(mt, n, ii, li) {
 					return
 				}
 				reacquired++
